@@ -14,6 +14,7 @@ CLAIMED = {
     "C02": ("FindIndex/Find/FindString(Index) vs stdlib leftmost-first span, same bounds as C01", "§5 C02"),
     "C03": ("FindSubmatchIndex family vs stdlib capture positions on the capture corpus", "§5 C03"),
     "C04": ("FindAll family, Count, iterators, AppendAllIndex vs stdlib FindAll sequence; limit n symbolic in [-1,3]", "§5 C04"),
+    "C05": ("exact worst-case work (executed basic blocks of library code, maximised by exhaustive symbolic exploration over ALL haystacks of length L over a 3-symbol class alphabet) at L, 2L; asserted: growth at most 2.5x plus a constant, and at most 32x the reference PikeVM per byte", "§5 C05"),
     "C08": ("Expand/ExpandString with a symbolic template (<= 3/4 bytes over the template alphabet), ReplaceAll* with symbolic source text and partly symbolic template, Split with symbolic text and symbolic limit n, all vs stdlib", "§5 C08"),
     "C10": ("Longest()/CompilePOSIX results vs stdlib in the same mode; Copy isolation", "§5 C10"),
     "C11": ("internal consistency of all views of one Regex on every byte string within the bound (no oracle)", "§5 C11"),
